@@ -193,6 +193,11 @@ class Gen:
         if op == "mat":
             self.nmat += 1
             return ["mat", prog, f"M{self.nmat}"], cols, eng
+        if op == "mark":
+            # a user-defined marker relation (extension point); SQL conform() drops such markers
+            if not eng.startswith("it"):
+                return None
+            return ["mark", prog, rng.choice(["tag", "note"])], cols, eng
         if op == "xfer":
             others = [e for e in self.cfg.engines if e != eng]
             if not others:
@@ -310,7 +315,7 @@ def op_signature(prog) -> str:
         return "L"
     if op in ("chain", "join"):
         return f"({op_signature(prog[1])}{'U' if op == 'chain' else 'J'}{op_signature(prog[2])})"
-    short = {"calc": "c", "proj": "p", "sel": "s", "dedup": "d", "sort": "o", "slice": "l", "mat": "m", "xfer": "x"}
+    short = {"calc": "c", "proj": "p", "sel": "s", "dedup": "d", "sort": "o", "slice": "l", "mat": "m", "xfer": "x", "mark": "k"}
     return op_signature(prog[1]) + short[op]
 
 
@@ -339,7 +344,7 @@ def chain_with_name_twin(g: Gen, state, rng):
         return None
     for name, t in twins.items():
         g.leaves[name + "t"] = t
-    ops = ("leaf", "calc", "proj", "sel", "dedup", "sort", "slice", "chain", "join", "mat", "xfer")
+    ops = ("leaf", "calc", "proj", "sel", "dedup", "sort", "slice", "chain", "join", "mat", "xfer", "mark")
 
     def retarget(p):
         if p[0] == "leaf":
